@@ -74,6 +74,26 @@ class Gen:
         self.nid = 0
 
     def s(self):
+        made = self.__dict__.setdefault("made", [])
+        if made and self.rng.random() < 0.25:
+            # strings RELATED to one generated earlier for the same input (extension by a component, prefix up to a
+            # separator, the same string again): prefix / containment / equality relations between arguments
+            base = self.rng.choice(made)
+            k = self.rng.randrange(3)
+            if k == 0:
+                out = base + self.rng.choice(["/", "::", "."]) + self.rng.choice(self.strs)
+            elif k == 1 and any(sep in base for sep in ("/", "::", ".")):
+                sep = next(sep for sep in ("/", "::", ".") if sep in base)
+                out = base.rsplit(sep, 1)[0]
+            else:
+                out = base
+        else:
+            out = self._fresh_s()
+        made.append(out)
+        del made[:-8]
+        return out
+
+    def _fresh_s(self):
         r = self.rng.random()
         if r < 0.6:
             return self.rng.choice(self.strs)
